@@ -7,7 +7,7 @@
    the lock-owner repair (fix: 8b57726) establishes in the code and what the tie checks. *)
 From Coq Require Import String.
 From Coq Require Import List NArith ZArith Bool Lia.
-From Verif Require Import GoStr GoNum GoHeader Sx Tables Coord C12Proofs.
+From Verif Require Import GoStr GoNum GoHeader Sx Tables Coord C12Proofs LockProto.
 Import ListNotations.
 Open Scope Z_scope.
 
@@ -22,10 +22,26 @@ Theorem C12_one_fetch_all_served :
     /\ (co_waiters s <> [] -> co_active s <> None)
     /\ Forall (fun p => o_status (snd p) = 200 /\ o_whole (snd p) = true -> 1 <= o_ver (snd p) <= co_version s) (co_done s).
 Proof.
-  intros maxage swr acts s. pose proof (run_inv maxage swr acts co_init inv_init) as I. fold s in I.
+  intros maxage swr acts s. pose proof (C12Proofs.run_inv maxage swr acts co_init C12Proofs.inv_init) as I. fold s in I.
   split; [exact (i_max _ I)|]. split; [exact (i_wait _ I)|exact (i_done _ I)].
 Qed.
 Print Assumptions C12_one_fetch_all_served.
+
+(* The lock protocol itself (caching.go getReaderOrWriter, readerNotifier, cache.Finish,
+   storageWriter.notify) at the grain of its own steps: for ANY number of requests and EVERY
+   interleaving of lookups, fetches, releases by holders (as many and as late as they like),
+   releases by requests that hold nothing, handler returns and steps of readerNotifier, at most one
+   origin fetch is in flight. This is what the schedule model above assumes. *)
+Theorem C12_lock_protocol_one_fetch :
+  forall n l, (in_flight (run true (init n) l) <= 1)%nat.
+Proof. exact one_fetch_in_flight. Qed.
+Print Assumptions C12_lock_protocol_one_fetch.
+
+(* Without the owner check - the code before fix 8b57726 - the same statement is false (finding F18). *)
+Theorem C12_refuted_without_owner_check :
+  exists n l, in_flight (run false (init n) l) = 2%nat.
+Proof. exact refuted_without_owner_check. Qed.
+Print Assumptions C12_refuted_without_owner_check.
 
 (* Non-vacuity: three requests share one fill; the entry expires; two more share one revalidation. *)
 Example C12_example :
